@@ -153,6 +153,27 @@ let e2_cmd (args : string list) : string =
   | ["levels"] | ["snapshots"] -> "info"
   | _ -> "bad-command"
 
+(* ---------- CK: compaction of the versions of each key ---------- *)
+let ck_cmd (args : string list) : string =
+  match args with
+  | ["run"; bottom; versioning; ret; now; snaps; runs] ->
+    let snaps = List.map (fun x -> n_of_int (int_of_string x)) (split_on ',' (if snaps = "-" then "" else snaps)) in
+    let vers = List.concat_map (fun run -> List.map (fun tok ->
+        match String.split_on_char ':' tok with
+        | [k; seq; kind; ts] ->
+          let kd = (match int_of_string kind with 0 -> CDel | 1 -> CSoft | 6 -> CRep | _ -> CSet) in
+          (k, { vseq = n_of_int (int_of_string seq); vkind = kd; vts = n_of_int (int_of_string ts) })
+        | _ -> failwith "bad version") (split_on ',' run)) (String.split_on_char '|' runs) in
+    let keys = List.sort_uniq compare (List.map fst vers) in
+    let kind_no = function CDel -> 0 | CSoft -> 1 | CSet -> 2 | CRep -> 6 in
+    let out = List.concat_map (fun k ->
+        let vs = List.filter_map (fun (k', v) -> if k' = k then Some v else None) vers in
+        let sorted = dedup_seq (List.fold_left (fun acc v -> insert_desc v acc) [] vs) in
+        let kept = compact_key (bottom = "1") (versioning = "1") (n_of_int (int_of_string ret)) (n_of_int (int_of_string now)) snaps sorted in
+        List.map (fun v -> Printf.sprintf "%s:%d:%d:%d" k (int_of_n v.vseq) (kind_no v.vkind) (int_of_n v.vts)) kept) keys in
+    "out:" ^ String.concat "," out
+  | _ -> "bad-command"
+
 let () =
   try
     while true do
@@ -163,6 +184,7 @@ let () =
             match String.split_on_char ' ' line with
             | "wal" :: rest -> wal_cmd rest
             | "e2" :: rest -> e2_cmd rest
+            | "ck" :: rest -> ck_cmd rest
             | _ -> "bad-command"
           with
           | Not_found -> "error:not-found"
